@@ -46,7 +46,7 @@ type genericRGBA struct{ im *image.RGBA }
 
 func (g genericRGBA) ColorModel() color.Model { return color.RGBAModel }
 func (g genericRGBA) Bounds() image.Rectangle { return g.im.Bounds() }
-func (g genericRGBA) At(x, y int) color.Color  { return g.im.RGBAAt(x, y) }
+func (g genericRGBA) At(x, y int) color.Color { return g.im.RGBAAt(x, y) }
 
 // buildLayout places the picture (w*h NRGBA or premultiplied RGBA pixel quadruples) into a parent buffer exactly as
 // the specification's Offset() says, fills every other byte with garbage, and returns the image to encode, the
